@@ -170,6 +170,13 @@ def part_a(c, n):
         for a in G["names"]:
             for b, _ty in G["rels"][a]:
                 cases.append((G, (["%s.n" % a], ["%s.status" % b])))
+        # references to KEY COLUMNS for which no dimension is declared (the primary key, the foreign key a relationship uses -- on whichever side the column lives):
+        # not fields of the model, so they are rejected like any other unknown field
+        for a in G["names"][:2]:
+            for b, ty in G["rels"][a][:2]:
+                fk = (b + "_id") if ty == "many_to_one" else "id"
+                cases.append((G, (["%s.n" % a], ["%s.%s" % (a, fk)])))
+                cases.append((G, (["%s.n" % b], ["%s.%s" % (b, fk), "%s.status" % a])))
     # fixed corpus: two disconnected models, the second reached only through a granular time dimension / a graph-level metric
     G0 = dict(names=["orders", "visits"], rels={"orders": [], "visits": []}, gm=[("g_total", "derived", "visits.total")])
     cases[:0] = [(G0, (["orders.n"], ["visits.created__month"])), (G0, ([], ["orders.status", "visits.created__week"])), (G0, (["orders.n"], ["visits.status"])),
